@@ -247,6 +247,29 @@ class Ctx:
             self.checks.append((label, "unsat", 0.0, None))
             self.stats["trivial_checks"] = self.stats.get("trivial_checks", 0) + 1
             return "unsat"
+        # first try with only those path-condition conjuncts that talk about the variables of the property formula
+        # (fewer premises: an unsat answer carries over to the full path condition; anything else falls through)
+        vs = free_consts(bad_s)
+        sel = [p for p in self.pc if free_consts(p) <= vs]
+        if len(sel) < len(self.pc) + len(self.axioms):
+            names = {str(v) for v in vs}
+            s2 = z3.Solver()
+            s2.set("timeout", min(self.query_timeout_ms, 10000))
+            for p in sel:
+                s2.add(p)
+            for cn in CONST_AXIOMS:
+                if cn in names:
+                    s2.add(*CONST_AXIOMS[cn])
+            s2.add(bad_s)
+            t1 = time.time()
+            r0 = str(s2.check())
+            self.stats["queries"] += 1
+            self.stats["solver_s"] += time.time() - t1
+            if r0 == "unsat":
+                self.stats["q_unsat"] = self.stats.get("q_unsat", 0) + 1
+                self.stats["isolated_unsat"] = self.stats.get("isolated_unsat", 0) + 1
+                self.checks.append((label, "unsat", time.time() - t, None))
+                return "unsat"
         r, m = self._check(bad)
         vals = model_values(m, self.inputs) if m is not None else None
         self.checks.append((label, r, time.time() - t, vals))
@@ -283,6 +306,34 @@ class Ctx:
         if r != "sat":
             return None
         return model_values(m, self.inputs)
+
+
+_FC_CACHE = {}
+
+
+def free_consts(e):
+    """set of uninterpreted constants (as z3 terms, hashed by id) occurring in e"""
+    k = e.get_id()
+    if k in _FC_CACHE:
+        return _FC_CACHE[k]
+    out = set()
+    seen = set()
+    stack = [e]
+    while stack:
+        t = stack.pop()
+        i = t.get_id()
+        if i in seen:
+            continue
+        seen.add(i)
+        if z3.is_const(t) and t.decl().kind() == z3.Z3_OP_UNINTERPRETED:
+            out.add(t)
+        else:
+            stack.extend(t.children())
+    out = frozenset(out)
+    if len(_FC_CACHE) > 20000:
+        _FC_CACHE.clear()
+    _FC_CACHE[k] = out
+    return out
 
 
 def num_value(v):
